@@ -11,6 +11,7 @@ CONSTANTS A2, L2,      \* alphabet / maximal length for binary and ternary opera
           AC, LC,      \* alphabet / maximal length for the case-insensitive operations
           AN, LN,      \* alphabet / maximal length for AtoI / AtoU
           PMax,        \* positions and lengths 0..PMax
+          WL,          \* maximal length of a run of leading white space (drawn from the whole isspace() class) for AtoI / AtoU
           HG,          \* symbolic sizes beyond every string (a subset of HugeNames) used as positions / lengths / counts
           BitPos       \* bit positions for the masked-bit formatter
 
@@ -36,6 +37,33 @@ RN(fn, n1) == Row(fn, <<>>, <<>>, <<>>, n1, 0, 0)
 
 RECURSIVE SortedSeq(_)
 SortedSeq(S) == IF S = {} THEN <<>> ELSE LET m == CHOOSE x \in S : \A y \in S : x <= y IN <<m>> \o SortedSeq(S \ {m})
+
+\* ---- every byte value.  A C string can hold the bytes 1..255, a memory block 0..255.
+AllB == 1..255
+\* the partners a byte is confronted with in the operations without case: itself, its lower-case form, the bytes 32 below /
+\* above it (the would-be case partners of non-letters: '@' and '`', '[' and '{', 0xC1 and 0xE1); in the comparisons: itself,
+\* its mirror image 256 - c (the same magnitude as a signed char) and the ends of the signed / unsigned ranges 1, 128, 255
+CasePartners(c) == {c, LowerCh(c), c - 32, c + 32} \cap AllB
+\* every call in which the byte c is classified or compared: as the first byte of a number, after white space / a sign / a
+\* digit, as the argument of the case, escaping, comparing, searching and copying operations
+ByteRows(c) ==
+    { R1(fn, <<c>> \o t) : fn \in {"atoi", "atou"}, t \in {<<>>, <<52, 50>>, <<45, 55>>} } \cup
+    { R1(fn, w \o <<c>> \o <<52, 50>>) : fn \in {"atoi", "atou"}, w \in {<<12>>, <<45>>, <<49>>} } \cup
+    { R1(fn, a) : fn \in {"lower", "printable"}, a \in {<<c>>, <<97, c, 90>>} } \cup
+    { R1(fn, <<c>>) : fn \in {"strlen", "format"} } \cup
+    { R2("strcmp", <<c>>, <<d>>) : d \in {c, 1, 128, 255} } \cup
+    { R2("eqnocase", <<c>>, <<d>>) : d \in CasePartners(c) } \cup
+    { R2("containsnocase", <<97, c, 98>>, <<d>>) : d \in {c - 32, c + 32} \cap AllB } \cup
+    { R2("strstr", <<97, c, 98>>, <<c, 98>>) } \cup
+    { Row("strncmp", <<97, c>>, <<97, d>>, <<>>, 2, 0, 0) : d \in {c, 256 - c} } \cup
+    { Row("find", <<97, c>>, <<>>, <<>>, d, 0, 0) : d \in {c, 256 - c} } \cup
+    { Row("strncpy", <<c>>, <<>>, <<>>, 3, 0, 0), Row("replacech", <<97, c>>, <<>>, <<>>, c, 120, 0),
+      Row("at", <<c>>, <<>>, <<>>, 0, 0, 0), Row("copytobuf", <<c>>, <<>>, <<>>, 2, 0, 0), Row("pad", <<97>>, <<98, 98>>, <<>>, c, 0, 0) }
+\* numbers as AtoI / AtoU read them: white space from the whole class, a sign, digits, and something after the number
+WhiteRuns == SeqsUpTo(SpaceBytes, WL)
+NumRows == { R1(fn, w \o sg \o dg \o tr) : fn \in {"atoi", "atou"}, w \in WhiteRuns, sg \in {<<>>, <<45>>, <<43>>},
+                                             dg \in {<<>>, <<52, 50>>},
+                                             tr \in {<<>>, <<32, 49>>, <<11, 49>>, <<97>>, <<45, 49>>} }
 
 BinFns == {"eq", "ne", "contains", "startswith", "endswith", "count", "strcmp", "strstr", "plus", "append", "appendc", "split", "format2"}
 Ints == {0, 1, 9, 10, 11, 99, 100, 101, 255, 256, 4095, 4096, 65535, 65536, 1000000, 2147483646, 2147483647}
@@ -84,9 +112,13 @@ Family(f) ==
                       { r \in { Row("memcmp", a, b, <<>>, n, 0, 0) : a \in Blocks, b \in Blocks, n \in 0..3 } : r.n1 <= Len(r.s1) /\ r.n1 <= Len(r.s2) }
       [] f = "bits" -> { Row("maskedbits", SortedSeq(V), SortedSeq(M), <<>>, 0, 0, bc) :
                            V \in SUBSET BitPos, M \in SUBSET BitPos, bc \in {1, 2, 4, 8, 9} }
+      [] f = "bytes" -> UNION { ByteRows(c) : c \in AllB } \cup
+                        { Row("memcmp", <<c, 0>>, <<d, 0>>, <<>>, 2, 0, 0) : c \in 0..255, d \in {0, 1, 128, 255} } \cup
+                        { Row("memcmp", <<7, c>>, <<7, c>>, <<>>, 2, 0, 0) : c \in 0..255 }
+      [] f = "white" -> NumRows
       [] f = "fmt" -> { R1("format", Rep(<<97>>, n)) : n \in {0, 1, 98, 99, 100, 101, 102, 250} } \cup
                       { R2("format2", Rep(<<97>>, n), Rep(<<98>>, m)) : n \in {0, 49, 50, 99, 100}, m \in {0, 49, 50, 51, 100} } \cup
                       { R2(fn, Rep(<<97>>, n), <<98>>) : fn \in {"plus", "append", "appendc"}, n \in {99, 100, 300} }
-Families == {"bin", "tri", "case", "un", "pos", "huge", "num", "blk", "bits", "fmt"}
+Families == {"bin", "tri", "case", "un", "pos", "huge", "num", "blk", "bits", "fmt", "bytes", "white"}
 RowsOf(f) == IF f = "all" THEN UNION { Family(g) : g \in Families } ELSE Family(f)
 =============================================================================
